@@ -1253,8 +1253,13 @@ func (s *Session) output(seg *segment, remoteAddr net.Addr) error {
 	default:
 		return fmt.Errorf("unsupported transport protocol %v", s.transportProtocol)
 	}
-	seq, _ := seg.Seq()
-	s.lastSend.Store(seq)
+	if !isAckProtocol(seg.Protocol()) {
+		// An ack is not sequenced: it carries nextSend-1, which can be the
+		// number of a segment that is still waiting in the send queue.
+		// It must not make that segment look transmitted to Close().
+		seq, _ := seg.Seq()
+		s.lastSend.Store(seq)
+	}
 	s.lastTXTime.Store(time.Now().UnixMicro())
 	return nil
 }
